@@ -85,24 +85,25 @@ CLAIMED = {
 }
 # clauses added after the second and third rounds of seeded changes / the mutant self test (DESIGN.md sections 2a, 2b)
 ALSO = {
- "C04": "the evidence search also in its slices.IndexFunc form (append only when not found)",
+ "C02": "a truncated quotient that is multiplied again is not an exact threshold; the periodic catch-up only ever raises a validator's cursor",
+ "C04": "the evidence search also in its slices.IndexFunc form (append only when not found); a message is removed from the queue on the cached context that carries its effects (shared with C07.R5)",
  "C10": "nothing but the chain match decides whether a snapshot validator is listed in a chain's valset",
- "C01": "a pointer returned together with a found flag is used only under found (x/skyway/keeper); an ERC20 contract keeps the denom it is bound to (shared with C03.R8)",
- "C03": "every external component wired in app.New with the application's message router is classified, and one that executes sender-chosen nested messages is opened by the decorator (authz MsgExec; ICA host and wasm are recorded known findings); bindings/entries that may belong to another principal (ERC20->denom, relay reports) are written only when absent; a create request cannot overwrite another account's job or re-create an existing denomination (shared with C17.R1 / C16.R5)",
- "C05": "the persisted counter value is exactly the id handed out; GetCheckpoint is recomputed from content and given ChainInfo.SmartContractUniqueID at every call site; feesOrDefault substitutes a missing record only; GetBytesToSign hands the hasher the stored queue entry itself",
- "C06": "each refusing comparison of the duplicate scan is evaluated for every existing entry; the election setter clears the signatures itself",
- "C07": "only the three admitted conditions hold on every edge into the cache flush; message fields enter the expected call data whole (no copy into a fixed-size window without a length check)",
- "C08": "no calendar arithmetic on process-local-zone times before UTC(); shared sync.Map/atomic values count as in-memory state; context deadlines are wall-clock sources; sync.Once on a shared object is process-lifetime state",
- "C09": "methods on possibly-unset math.Int fields of the libcons structs; every recover() is called directly by a deferred function; triage entries with a checkable reason re-verify it; the relayer fee multiplicator is refused at submission unless set, non-negative and at most MaxUint64 (defect fixed in /repo)",
+ "C01": "a pointer returned together with a found flag is used only under found (x/skyway/keeper); an ERC20 contract keeps the denom it is bound to (shared with C03.R8); an inline commit is followed by no error return; the bridge escrow stays on the bank's blocked-address list",
+ "C03": "every external component wired in app.New with the application's message router is classified, and one that executes sender-chosen nested messages is opened by the decorator (authz MsgExec; ICA host and wasm are recorded known findings); bindings/entries that may belong to another principal (ERC20->denom, relay reports) are written only when absent; a create request cannot overwrite another account's job or re-create an existing denomination (shared with C17.R1 / C16.R5); a light-node sale grants the fee allowance from the fee granter to the client (shared with C18.R3)",
+ "C05": "the persisted counter value is exactly the id handed out; GetCheckpoint is recomputed from content and given ChainInfo.SmartContractUniqueID at every call site; feesOrDefault substitutes a missing record only; GetBytesToSign hands the hasher the stored queue entry itself; hasher parameters are identified by position",
+ "C06": "each refusing comparison of the duplicate scan is evaluated for every existing entry; the election setter clears the signatures itself; ConfirmBatch verifies against the key of msg.Orchestrator, the identity the confirmation is stored under",
+ "C07": "only the three admitted conditions hold on every edge into the cache flush; message fields enter the expected call data whole (no copy into a fixed-size window without a length check); compared signature lists are prefixes of the collected signatures; the message is removed on the cached context; no cache context is written back by a defer inside a loop",
+ "C08": "no calendar arithmetic on process-local-zone times before UTC(); shared sync.Map/atomic values count as in-memory state; context deadlines are wall-clock sources; sync.Once on a shared object is process-lifetime state; order-restoring comparators compare values exactly (no tolerance)",
+ "C09": "methods on possibly-unset math.Int fields of the libcons structs; every recover() is called directly by a deferred function; triage entries with a checkable reason re-verify it; the relayer fee multiplicator is refused at submission unless set, non-negative and at most MaxUint64 (defect fixed in /repo); a method on an interface filled by UnpackAny is invoked only after a nil test (defect fixed in /repo); a failing message does not end the estimate pass (shared with C14.R5)",
  "C11": "the hash input passes through no normalising function; only formatting / injective encodings between claim fields and hash (allow-list); GetAttestation decodes exactly store.Get(key)",
- "C12": "the unjailed-set snapshot is rewritten on every successful run; the jail record is read and written under one key value; every accepting return of CanAcceptKeepAlive is compared with the current minimum version; protection totals are counted inside the jailing call",
- "C13": "the evidence checkpoint is recomputed from content with the chain's current deployment id; every non-nil Result of VerifyEvidence carries the tallied totals; the archived checkpoint is that of the batch written; evidence entries are replaced, never duplicated (shared with C04.R3)",
- "C14": "every queued UpdateValset counts as pending; community/security fee from the relayer fee as stored; estimate processing runs on one cache context per message, committed only on that message's success",
- "C15": "rate stored exactly as proposed; an ongoing window accumulates; the usage counter is never deleted on a runtime path; a cancellation returns the recorded tax (shared with C01.R3)",
- "C16": "coins moved are the amount parameter itself; GetAuthorityMetadata returns the stored record or the empty value; no in-memory state in x/tokenfactory; the set_metadata wasm binding writes only for the denom whose admin it checked; genesis import restores every exported authority record",
- "C17": "the requester passed on is Metadata.Creator; no in-memory copy of jobs; Job.ID is not rewritten between existence check and write; the stored payload is used only for fixed jobs or when nothing was supplied",
- "C18": "the licence paid out is looked up under the key that is deleted; the funder variable is only set under HasBalance; the sale handler runs on the attestation's cached context; no in-memory state in x/paloma/keeper; a licence record is written only behind the lock; replacing the sale contracts purges every stored contract",
- "C19": "the iterator's priority bound is the next index entry's priority whoever owns it; the mempool capacity is never fed from configuration; the priority comparator is exact on int64",
+ "C12": "the unjailed-set snapshot is rewritten on every successful run; the jail record is read and written under one key value; every accepting return of CanAcceptKeepAlive is compared with the current minimum version; protection totals are counted inside the jailing call; grace periods are updated before the liveness sweep",
+ "C13": "the evidence checkpoint is recomputed from content with the chain's current deployment id; every non-nil Result of VerifyEvidence carries the tallied totals; the archived checkpoint is that of the batch written; evidence entries are replaced, never duplicated (shared with C04.R3); a checkpoint put into BytesToSign is archived; a successful MsgAddEvidence stored the evidence",
+ "C14": "every queued UpdateValset counts as pending; community/security fee from the relayer fee as stored; estimate processing runs on one cache context per message, committed only on that message's success; community and security rate come from their own records; a failing message does not stop the rest of its queue",
+ "C15": "rate stored exactly as proposed; an ongoing window accumulates; the usage counter is never deleted on a runtime path; a cancellation returns the recorded tax (shared with C01.R3); a window starts at the current block height; the tax is burned with the batch (shared with C01.R3)",
+ "C16": "coins moved are the amount parameter itself; GetAuthorityMetadata returns the stored record or the empty value; no in-memory state in x/tokenfactory; the set_metadata wasm binding writes only for the denom whose admin it checked; genesis import restores every exported authority record; key builders keep names as spelled; the ante decorator ties each message's creator to its signers (shared with C03.R2)",
+ "C17": "the requester passed on is Metadata.Creator; no in-memory copy of jobs; Job.ID is not rewritten between existence check and write; the stored payload is used only for fixed jobs or when nothing was supplied; the payload is decoded by FromHex; the wasm bindings name the calling contract as requester",
+ "C18": "the licence paid out is looked up under the key that is deleted; the funder variable is only set under HasBalance; the sale handler runs on the attestation's cached context; no in-memory state in x/paloma/keeper; a licence record is written only behind the lock; replacing the sale contracts purges every stored contract; vesting ends VestingMonths months after activation; the fee allowance goes from the fee granter to the client",
+ "C19": "the iterator's priority bound is the next index entry's priority whoever owns it; the mempool capacity is never fed from configuration; the priority comparator is exact on int64; the fee checker returns a constant priority below the reserved classes; every component of the index comparator compares the first key with the second",
 }
 for k, v in ALSO.items():
     if k in CLAIMED and "NOT decided" in CLAIMED[k]["text"]:
